@@ -183,6 +183,8 @@ structure Env where
   fee : Int
   mainnet : Bool
   tipSlot : Int
+  /-- the chain point's timestamp, in milliseconds -/
+  tipTime : Int := 1757611408
   deriving Inhabited
 
 inductive Mode | plain | asset | datum | address
@@ -360,6 +362,24 @@ def eval (ρ : Env) : Nat → Mode → LExpr → Outcome Val
            | _ => illTyped "ada"
          | _ => unsupported "ada-arity")
       else if f = "tip_slot" then (match args with | [] => .ok (.int ρ.tipSlot) | _ => illTyped "tip_slot-arity")
+      else if f = "slot_to_time" then
+        -- slots are one second long: the instant (in milliseconds) at which the slot begins
+        (match args with
+         | [a] => do
+           let v ← eval ρ fuel mode a
+           match v with
+           | .int sl => .ok (.int (ρ.tipTime + (sl - ρ.tipSlot) * 1000))
+           | _ => illTyped "slot_to_time"
+         | _ => illTyped "slot_to_time-arity")
+      else if f = "time_to_slot" then
+        -- whole seconds elapsed since the chain point (towards zero), counted from its slot
+        (match args with
+         | [a] => do
+           let v ← eval ρ fuel mode a
+           match v with
+           | .int t => .ok (.int (ρ.tipSlot + Int.tdiv (t - ρ.tipTime) 1000))
+           | _ => illTyped "time_to_slot"
+         | _ => illTyped "time_to_slot-arity")
       else
         match lookup (ρ.prog.assets.map fun a => (a.1, a.2)) f, args with
         | some (pol, an), [a] => do
